@@ -19,7 +19,7 @@ Section Structure.
     end.
   Definition is_var (e : exprT) : bool := match e with EVar _ => true | _ => false end.
 
-  Definition wrapper_of (v : mvalT) : option (list transform * option Z) :=
+  Definition wrapper_of (v : mvalT) : option (list (transform T) * option Z) :=
     match v with MB _ => None | MT s i _ _ _ => Some (s, i) end.
   Definition tlimits (v : mvalT) : option (float * float) :=
     match v with MB _ => None | MT _ _ l h _ => Some (l, h) end.
